@@ -1,6 +1,14 @@
 // Common helpers for the verification harness (C++ side of the line protocol).
 #ifndef VERIF_COMMON_H
 #define VERIF_COMMON_H
+// exit of a forked child without running the destructors of the parent's objects; in a coverage build (tools/coverage.py)
+// the counters are written first
+#ifdef VERIF_COVERAGE
+extern "C" void __gcov_dump(void);
+#define VH_EXIT(c) do { __gcov_dump(); _exit(c); } while (0)
+#else
+#define VH_EXIT(c) _exit(c)
+#endif
 #include "ibex.h"
 #include <cstdint>
 #include <cstring>
